@@ -19,8 +19,7 @@ OPEN = {
     "C01": ["C01_parse_sem: forall sty a, wf_media a -> parse_media (render_media sty a) = Ok (complete (sem_media a)) -- proved in layers (tokenizer, unquote, dispatch, assembly, integers, C06-C09); missing: per-tag interpretation lemmas and the float text conversions of EXTINF / DATERANGE durations"],
     "C02": ["C02_parse_sem: forall sty a, wf_master a -> parse_master (render_master sty a) = Ok (sem_master a) -- proved in layers (tokenizer, dispatch, source order, enums, integers); missing: per-tag interpretation lemmas, UFloat frame rates"],
     "C03": ["C03_roundtrip: forall p from parse, parse_media (print_media p) = Ok p' with obs p' = obs p and print_media p' = print_media p -- proved: key-event duality (sets of keys per segment); missing: text of each tag read back (floats), byte-range/number/IV idempotence of build on printed text; FALSE as stated for key order (D20) and map keys (D9-K1): known findings"],
-    "C04": ["C04_parsed_wf: forall s p, parse_master s = Ok p -> wf_master p = true up to the two float conditions -- not proved yet (every string of a parse result is an unquote result, every integer a parse_uint result); until then C04_text_roundtrip is stated for well-formed values (decidable predicate, evaluated on the example), and that the parser only returns such values is sampled by the correspondence check",
-            "ufloat_rt x / float_rt x for every f32 with at most 3 decimals: hypothesis on the modelled std float conversions (decidable per value), not a theorem"],
+    "C04": ["ufloat_rt x (FRAME-RATE) / float_rt x (TIME-OFFSET) for every f32 with at most 3 decimals: C04_roundtrip holds for every parse result under this decidable hypothesis on the modelled std float conversions; the hypothesis itself is not a theorem (evaluated on examples, exercised by the correspondence check)"],
     "C05": ["C05_cost: cost_parse s <= c1*|s| + c2*|items s|*K s -- no cost model was built; time scaling is measured only (thorough tier)"],
     "C12": ["C12_restyle: forall sty1 sty2 a, wf a -> parse (render sty1 a) = parse (render sty2 a) -- corollary of the open C01/C02 statements; attribute order proved for 3 tags + generic theorem, not instantiated for all 12 attribute-list tags; header-tag and segment-tag order permutations not proved (sampled)"],
     "C14": ["C14_T for EXT-X-KEY / STREAM-INF as an iff over all attribute lists: only the invariant direction is proved for keys; stream tags are by typing (BANDWIDTH / URI are required fields of the result)"],
